@@ -395,8 +395,8 @@ func (in *Interp) clockNow() TimeV {
 }
 
 func iTimeUnix(in *Interp, fn *ssa.Function, a []Value) Value {
-	sec := bvToInt(a[0].(Term), true)
-	nsec := bvToInt(a[1].(Term), true)
+	sec := toInt(a[0].(Term), true)
+	nsec := toInt(a[1].(Term), true)
 	ns := intBin("+", intBin("*", intBin("+", sec, mkInt(unixToYear1Sec)), mkInt(1000000000)), nsec)
 	return TimeV{NS: ns}
 }
@@ -410,17 +410,17 @@ func iTimeUnixOf(in *Interp, fn *ssa.Function, a []Value) Value {
 		if v%1000000000 < 0 {
 			q--
 		}
-		return mkBV(64, uint64(q-unixToYear1Sec))
+		return mkInt(q - unixToYear1Sec)
 	}
-	return intToBV(symInt(fmt.Sprintf("(- (div %s 1000000000) %d)", t.NS.E, int64(unixToYear1Sec))), 64)
+	return symInt(fmt.Sprintf("(- (div %s 1000000000) %d)", t.NS.E, int64(unixToYear1Sec)))
 }
 
 func iTimeUnixMilliOf(in *Interp, fn *ssa.Function, a []Value) Value {
 	t := a[0].(TimeV)
 	if t.NS.C {
-		return mkBV(64, uint64(int64(t.NS.U)/1000000-unixToYear1Sec*1000))
+		return mkInt(int64(t.NS.U)/1000000 - unixToYear1Sec*1000)
 	}
-	return intToBV(symInt(fmt.Sprintf("(- (div %s 1000000) %d)", t.NS.E, int64(unixToYear1Sec)*1000)), 64)
+	return symInt(fmt.Sprintf("(- (div %s 1000000) %d)", t.NS.E, int64(unixToYear1Sec)*1000))
 }
 
 func iTimeSub(in *Interp, fn *ssa.Function, a []Value) Value {
